@@ -206,7 +206,7 @@ func (d *driver) classify(path string, b []byte) classified {
 		d.cls[h] = c
 		return c
 	}
-	for i := c.tried; i < len(d.known); i++ {
+	for i := len(d.known) - 1; i >= c.tried; i-- { // newest first: a crafted keystore's password was learnt last
 		if try(d.known[i]) {
 			d.cls[h] = c
 			return c
@@ -344,7 +344,7 @@ var storeClasses = [][2]string{
 var loadClasses = [][2]string{
 	{"no keys found", "nokeys"}, {"read file", "readfile"}, {"unmarshal keystore", "unmarshal"},
 	{"load password", "loadpw"}, {"keystore decryption", "decrypt"}, {"extract file index", "extractidx"},
-	{"walk directory", "walk"},
+	{"walk directory", "walk"}, {"no password files found", "nopw"},
 }
 
 var seqClasses = [][2]string{
@@ -430,6 +430,8 @@ func (d *driver) exec(base string) (op string, out string) {
 		_ = os.RemoveAll(d.base)
 		hx.Must(os.MkdirAll(d.base, 0o755))
 		d.stored = map[string]*storedInfo{}
+		// passwords and classifications of earlier episodes are of no use in a fresh world
+		d.known, d.knownS, d.cls = nil, map[string]bool{}, map[[32]byte]classified{}
 		res = "ok"
 		oracle = "base=" + hex.EncodeToString([]byte(d.base))
 	case "mkdir":
